@@ -367,7 +367,10 @@ class Monitor:
                 r_ = r_.rule
             tcls = type(r_).__name__
             # (the normaliser `Simplify` is part of nearly every composite rule: its recorded findings keep their key)
-            if tcls != fr.cls and fr.cls != 'Simplify' and not mech.startswith(tcls):
+            ri = fr.rule
+            while hasattr(ri, 'rule'):
+                ri = ri.rule
+            if tcls != fr.cls and tcls != type(ri).__name__ and fr.cls != 'Simplify' and not mech.startswith(tcls):
                 mech = tcls + '>' + mech
         desc = '%s.eval(%s)%s -> %s : %s; draws %s' % (
             fr.cls, O.show(fr.e_sh)[:160], (' under ' + ', '.join(O.show(c) for c in conds)[:120]) if conds else '',
